@@ -21,12 +21,12 @@ var lookupAnchors = []string{
 
 func init() {
 	register(&Rule{
-		Name:    "NILLOOKUP",
-		Doc:     "the result of a descriptor lookup that may be nil (FieldById/FieldByKey/ByNumber/ByName/ByJSONName/LookupMethodByName/Get*Base, resolved callees) is dereferenced only in the region dominated by the non-nil edge of a nil test on it",
-		Configs: "NP",
-		Floor:   map[string]int{"N": 40, "P": 38},
+		Name:     "NILLOOKUP",
+		Doc:      "the result of a descriptor lookup that may be nil (FieldById/FieldByKey/ByNumber/ByName/ByJSONName/LookupMethodByName/Get*Base, resolved callees) is dereferenced only in the region dominated by the non-nil edge of a nil test on it",
+		Configs:  "NP",
+		Floor:    map[string]int{"N": 40, "P": 38},
 		Controls: 1,
-		Run:     runNilLookup,
+		Run:      runNilLookup,
 	})
 }
 
